@@ -5,7 +5,13 @@
 
 package corazawaf
 
-import "unsafe"
+import (
+	"reflect"
+	"sort"
+	"unsafe"
+
+	"github.com/corazawaf/coraza/v3/collection"
+)
 
 func uintptrOf(p *byte) uintptr { return uintptr(unsafe.Pointer(p)) }
 
@@ -53,3 +59,33 @@ func (tx *Transaction) VerifSnapshotFields() map[string]any {
 
 // VerifTransformationCacheLen exposes the size of the per-phase transformation cache.
 func (tx *Transaction) VerifTransformationCacheLen() int { return len(tx.transformationCache) }
+
+// VerifVariablesDump returns the content of every collection field of the transaction's
+// variables (found by reflection over the struct, so a collection that is not registered in
+// TransactionVariables.All is still seen): field name -> sorted "key=value" entries.
+func (tx *Transaction) VerifVariablesDump() map[string][]string {
+	out := map[string][]string{}
+	v := reflect.ValueOf(&tx.variables).Elem()
+	t := v.Type()
+	for i := 0; i < v.NumField(); i++ {
+		f := v.Field(i)
+		if f.Kind() != reflect.Interface && f.Kind() != reflect.Ptr {
+			continue
+		}
+		if f.IsNil() {
+			continue
+		}
+		val := reflect.NewAt(f.Type(), unsafe.Pointer(f.UnsafeAddr())).Elem().Interface()
+		col, ok := val.(collection.Collection)
+		if !ok {
+			continue
+		}
+		var entries []string
+		for _, md := range col.FindAll() {
+			entries = append(entries, md.Key()+"="+md.Value())
+		}
+		sort.Strings(entries)
+		out[t.Field(i).Name] = entries
+	}
+	return out
+}
